@@ -76,7 +76,7 @@ func (e *Engine) callStatic(fr *Frame, s *State, f *ssa.Function, args []Value, 
 		if f.Name() == "init" && f.Pkg != nil {
 			return nil // initialisation of foreign packages is not modelled
 		}
-		if inlineForeign[name] {
+		if inlineForeign[name] || inlineForeignPkg(name) {
 			return e.callFunction(s, f, args, nil)
 		}
 		if f.Pkg == nil && f.Synthetic != "" {
@@ -270,6 +270,17 @@ type stdHandler func(e *Engine, fr *Frame, s *State, args []Value, pos string) V
 var stdIntrinsics map[string]stdHandler
 
 // tiny foreign functions that are inlined from their real SSA
+// small pure standard-library packages whose functions are executed from their real SSA when no exact
+// intrinsic is registered (a refactoring of the code under test may start using them)
+func inlineForeignPkg(name string) bool {
+	for _, p := range []string{"crypto/subtle.", "math/bits.", "encoding/binary.", "(encoding/binary.littleEndian).", "(encoding/binary.bigEndian).", "bytes.", "sort."} {
+		if strings.HasPrefix(name, p) {
+			return true
+		}
+	}
+	return false
+}
+
 var inlineForeign = map[string]bool{
 	"(crypto.Hash).HashFunc": true,
 }
